@@ -265,6 +265,32 @@ pub fn run(ctx: &mut Ctx) {
         c.path = (k % 2) as u8;
         cases.push(c);
     }
+    // tiny images over a small alphabet, exhaustively, with the adaptive filter: rows on which several candidate filters
+    // score exactly the same are common here (the heuristic's tie-breaking decides which bytes go with which type byte)
+    {
+        let alphabet: [u8; 5] = [0, 5, 10, 15, 20];
+        let shapes: &[(u32, u32, usize)] = if ctx.tier == crate::report::Tier::Thorough { &[(2, 2, 5), (3, 2, 5), (2, 3, 4)] } else { &[(2, 2, 5), (3, 2, 4)] };
+        for &(w, h, a) in shapes {
+            let n = (w * h) as usize;
+            let total = a.pow(n as u32);
+            for code in 0..total {
+                let mut x = code;
+                let pixels: Vec<u8> = (0..n).map(|_| { let v = alphabet[x % a]; x /= a; v }).collect();
+                cases.push(EncCase { color: 0, depth: 8, w, h, pixels, filter: 5, compression: if code % 2 == 0 { 1 } else { 0 }, path: (code % 3 == 0) as u8, stream_buf: 4096, partition: vec![], sink: vec![], interlaced_flag: false });
+            }
+        }
+        // the same idea for RGB8 (bpp 3) and Gray16 (bpp 2): two-row images whose second row repeats / offsets the first
+        for k in 0..ctx.n(2000, 20000) {
+            let mut r = rng.fork(7_000_000 + k as u64);
+            let (color, depth, bpp) = *r.pick(&[(2u8, 8u8, 3usize), (0, 16, 2), (6, 8, 4), (4, 8, 2)]);
+            let w = r.range(1, 4) as u32;
+            let h = r.range(2, 3) as u32;
+            let rb = w as usize * bpp;
+            let vals: [u8; 4] = [0, 1, 2, 255];
+            let pixels: Vec<u8> = (0..rb * h as usize).map(|_| *r.pick(&vals)).collect();
+            cases.push(EncCase { color, depth, w, h, pixels, filter: 5, compression: 1, path: (k % 2) as u8, stream_buf: 64, partition: vec![], sink: vec![], interlaced_flag: false });
+        }
+    }
     let files: Vec<Result<Vec<u8>, String>> = cases.iter().map(encode).collect();
     let lines: Vec<String> = files.iter().map(|f| match f { Ok(f) => format!("c01 decode {}", hex(f)), Err(_) => "c01 skip".to_string() }).collect();
     let answers = model::ask(&lines);
